@@ -328,6 +328,43 @@ def r3_arg_sort(prog: Program, rep: Report, rule: str = "C19.R3"):
         rep.unrec(rule, f, "delegates", "arg_sort is not the plain delegation to sorted(range(n), key=..., reverse=reverse)")
 
 
+def _window_guard_counterexample(f: Func, s1: str, s2: str, expanded):
+    """a top-level `if T: return <empty / False>` (no else) ahead of the scan whose test holds for some 1 <= len(s1) <= len(s2) <= 4:
+    (the if, len1, len2), else None.  Tests that are not arithmetic over the two lengths are skipped."""
+    from .cachefam import _eval_small
+
+    class _Len(ast.NodeTransformer):
+        def __init__(self, a, b):
+            self.a, self.b = a, b
+
+        def visit_Call(self, n):
+            if isinstance(n.func, ast.Name) and n.func.id == "len" and len(n.args) == 1 and isinstance(n.args[0], ast.Name):
+                if n.args[0].id == s1:
+                    return ast.copy_location(ast.Constant(value=self.a), n)
+                if n.args[0].id == s2:
+                    return ast.copy_location(ast.Constant(value=self.b), n)
+            return self.generic_visit(n)
+    for st in f.node.body:
+        if isinstance(st, (ast.For, ast.While)):
+            break
+        if not (isinstance(st, ast.If) and not st.orelse and st.body and isinstance(st.body[-1], ast.Return)):
+            continue
+        rv = st.body[-1].value
+        empty = rv is None or (isinstance(rv, (ast.List, ast.Tuple)) and not rv.elts) or (isinstance(rv, ast.Constant) and rv.value in (False, None))
+        if not empty:
+            continue
+        t = expanded(st.test)
+        for a in (1, 2, 3, 4):
+            for b in range(a, 5):
+                t2 = _Len(a, b).visit(ast.parse(src(t), mode="eval").body)
+                v = _eval_small(t2, {})
+                if v is None:
+                    break
+                if v:
+                    return st, a, b
+    return None
+
+
 def r4_window_scan(prog: Program, rep: Report):
     rep.rule("C19.R4", "window scans examine every offset: sub_seq and search_sub_seq compare s1 with the window of s2 at every "
              "offset 0 .. len(s2)-len(s1) (step 1, no early exit in the reporting variant)", floor=2)
@@ -348,6 +385,15 @@ def r4_window_scan(prog: Program, rep: Report):
             return expand_all(e, wflow, keep=(s1, s2))
         full = [it for it in iters if src(expanded(it)) in (want, alt)]
         whiles = [n for n in ast.walk(f.node) if isinstance(n, ast.While)]
+        # guard clauses in front of the scan: a `return` of "nothing found" taken for lengths 1 <= len(s1) <= len(s2) skips the scan for
+        # inputs that have a window (the guards are evaluated for all small pairs of lengths, named intermediate values expanded)
+        bad_guard = _window_guard_counterexample(f, s1, s2, expanded)
+        if bad_guard is not None:
+            g_, a_, b_ = bad_guard
+            rep.viol("C19.R4", f, "every-offset", f"the guard `{src(g_.test)}` returns before the scan for len({s1}) = {a_}, len({s2}) = {b_}: "
+                     f"the window at offset 0 .. {b_ - a_} is never compared",
+                     scenario=f"{name}(['a'], ['a']) reports no occurrence although the sequences are equal", line=g_.lineno)
+            continue
         if full and not whiles:
             cmp_ok = any(isinstance(n, ast.Compare) and len(n.ops) == 1 and isinstance(n.ops[0], ast.Eq)
                          and {src(n.left).split("[")[0], src(n.comparators[0]).split("[")[0]} == {s1, s2} for n in ast.walk(f.node))
